@@ -83,11 +83,12 @@ def extract_brackets(rep: Report) -> str:
         if kname.startswith("un "):
             u = kname.split()[1]
             return [UnOp(tok, uops[u], BinOp(tok, bops["pow"], atom(), atom())),
-                    UnOp(tok, uops[u], UnOp(tok, uops["not"], atom()))]
+                    UnOp(tok, uops[u], UnOp(tok, uops["not"], atom()))] + [UnOp(tok, uops[u], v) for v in atoms_variety()]
         if kname.startswith("bin "):
             o = kname.split()[1]
             return [BinOp(tok, bops[o], BinOp(tok, bops["or"], atom(), atom()), UnOp(tok, uops["neg"], atom())),
-                    BinOp(tok, bops[o], BinOp(tok, bops["pow"], atom(), atom()), BinOp(tok, bops["concat"], atom(), atom()))]
+                    BinOp(tok, bops[o], BinOp(tok, bops["pow"], atom(), atom()), BinOp(tok, bops["concat"], atom(), atom())),
+                    BinOp(tok, bops[o], Number(tok, False, "1"), String(tok, "s")), BinOp(tok, bops[o], Table(tok, []), Vararg(tok))]
         return atoms_variety()
 
     bin_bits = 0
